@@ -127,6 +127,9 @@ func runC08(e *Env) {
 		o := authBoth(p, c.a, c.b, nil, nil)
 		e.R.Eval()
 		e.R.Distinct(fmt.Sprintf("codes/%q/%q", c.a, c.b))
+		if i < 3 {
+			e.R.Sample(map[string]any{"scenario": "codes", "sender_code": c.a, "receiver_code": c.b, "sender_err": errS(o.SendErr), "receiver_err": errS(o.RecvErr)})
+		}
 		if c.a == c.b {
 			note("control")
 			if o.SendErr != nil || o.RecvErr != nil {
@@ -202,6 +205,9 @@ func runC08(e *Env) {
 		e.R.Eval()
 		e.R.Distinct("rogue-dialer/" + s.name)
 		note("rogue_dialer")
+		if i < 2 {
+			e.R.Sample(map[string]any{"scenario": "rogue-dialer", "strategy": s.name, "honest_receiver_err": errS(err)})
+		}
 		if err == nil {
 			e.R.Violate("rogue-dialer:"+s.name+":accepted", "the honest receiver accepted a dialer that does not hold the join code (strategy "+s.name+")", map[string]any{"strategy": s.name}, nil)
 		}
@@ -300,6 +306,9 @@ func runC08(e *Env) {
 		e.R.Eval()
 		e.R.Distinct(fmt.Sprintf("relay/%d", i%4))
 		note("relay")
+		if i < 1 {
+			e.R.Sample(map[string]any{"scenario": "relay between two TLS sessions", "sender_err": errS(es), "receiver_err": errS(er)})
+		}
 		if es == nil || er == nil {
 			e.R.Violate("relay:accepted", fmt.Sprintf("a relay between two TLS sessions piping the auth stream verbatim was accepted: sender err=%v receiver err=%v", es, er), nil, nil)
 		}
@@ -350,6 +359,9 @@ func runC08(e *Env) {
 		e.R.Eval()
 		e.R.Distinct(fmt.Sprintf("alter/%s/%d/%d", a.side, a.bit, a.cut))
 		note("alterations")
+		if i%97 == 0 {
+			e.R.Sample(map[string]any{"scenario": "alteration", "message": a.side, "bit": a.bit, "cut": a.cut, "sender_err": errS(o.SendErr), "receiver_err": errS(o.RecvErr)})
+		}
 		// the honest end that RECEIVES the altered message must reject
 		if a.side == "m1" && o.RecvErr == nil {
 			e.R.Violate("alteration:sender-message:accepted", fmt.Sprintf("receiver accepted the sender's message with bit %d flipped / cut at %d", a.bit, a.cut), a, nil)
